@@ -29,13 +29,15 @@ let () =
   let nt = nn + 1 in
   let ((pol_model, pol_all), pol_one) = ev_pols in
   let pol = match (try Sys.getenv "EXPLORE_POL" with Not_found -> "model") with "all" -> pol_all | "one" -> pol_one | _ -> pol_model in
-  let init = ev_init kind (n_of_int cap) tcap pol (n_of_int 56) lp (fun u -> let i = int_of_nat u in if i < nn then nps.(i) else []) (fun _ -> ff) in
-  let key ((g, ls) : (egst, elst) cfg) : string =
+  let repaired = (try Sys.getenv "EXPLORE_REPAIRED" with Not_found -> "1") <> "0" in
+  let crash = (try Sys.getenv "EXPLORE_CRASH" with Not_found -> "0") = "1" in
+  let init = ev_init repaired kind (n_of_int cap) tcap pol (n_of_int 56) lp (fun u -> let i = int_of_nat u in if i < nn then nps.(i) else []) (fun _ -> ff) in
+  let key (((g, ls) : (egst, elst) cfg), (frozen : int)) : string =
     let ((_, _), nw) = ev_obs g in
     let ws = List.init (int_of_n nw) (fun w -> ev_words g (n_of_int w)) in
     let gh = List.init cap (fun i -> ev_ghost g (n_of_int i)) in
     let lo = List.init nt (fun t -> ev_local (ls (nat_of_int t))) in
-    Marshal.to_string (ev_obs g, ws, gh, lo) [] in
+    Marshal.to_string (ev_obs g, ws, gh, lo, frozen) [] in
   let seen : (string, int) Hashtbl.t = Hashtbl.create 1000000 in
   let parent : (int, int * int) Hashtbl.t = Hashtbl.create 1000000 in
   let q = Queue.create () in
@@ -45,7 +47,7 @@ let () =
     if not (Hashtbl.mem seen k) then begin
       let id = !nstates in incr nstates;
       Hashtbl.add seen k id; Hashtbl.add parent id (par, t); Queue.add (id, c) q end in
-  add init (-1) (-1);
+  add (init, -1) (-1) (-1);
   let sched_of id =
     let rec go id acc = if id <= 0 then acc else let (p, t) = Hashtbl.find parent id in go p (t :: acc) in
     go id [] in
@@ -55,11 +57,11 @@ let () =
   let inv_first = Hashtbl.create 8 in
   let fail name id = Hashtbl.replace inv_fail name (1 + try Hashtbl.find inv_fail name with Not_found -> 0);
     if not (Hashtbl.mem inv_first name) then Hashtbl.add inv_first name id in
-  let check_inv id ((g, ls) : (egst, elst) cfg) =
+  let check_inv id (((g, ls) : (egst, elst) cfg), (frozen : int)) =
     let ((stc, _), nw) = ev_obs g in
     let stc = int_of_n stc and nw = int_of_n nw in
     let lpc = let (((_, pc), _), _) = ev_local (ls O) in pc in
-    let inphase i = match lpc with LStoreIdle | LEmpty -> true | LDrainPtr (w, _) | LDrain (w, _) -> int_of_n w <= widx i | _ -> false in
+    let inphase i = match lpc with LStoreIdle | LEmpty | LStoreIdle2 -> true | LDrainPtr (w, _) | LDrain (w, _) -> int_of_n w <= widx i | _ -> false in
     (match lpc with LDrainPtr (w, _) | LDrain (w, _) -> if int_of_n w >= nw then fail "drain-bound" id | _ -> ());
     for i = 0 to cap - 1 do
       let (((nt_, dl), cv), (dn, lo)) = ev_ghost g (n_of_int i) in
@@ -73,6 +75,17 @@ let () =
       else if dl + pe <> nt_ then fail "counting-conservation" id;
       if cv < dn && not (stc = 2 || inphase i) then fail "J1-wakeup" id
     done;
+    (* repaired protocol: a token is in the trigger or a (live) notifier is between its Idle->Pending CAS and its post *)
+    let ((_, tr), _) = ev_obs g in
+    let tok = int_of_n tr > 0 || List.exists (fun t -> t <> frozen && (match ev_local (ls (nat_of_int t)) with (((_, NTrig _), _), _) -> true | _ -> false)) (List.init nt (fun t -> t)) in
+    if repaired then begin
+      let inwait = (match lpc with LWait _ -> true | _ -> false) in
+      let indom = (match lpc with PIdle | LWait _ | LDrainPtr _ | LDrain _ -> true | _ -> false) in
+      if indom && stc = 1 && not tok then fail "P-pending-has-token" id;
+      if inwait && stc = 2 && not tok then fail "K-notified-in-wait-has-token" id;
+      if inwait && not tok then
+        for i = 0 to cap - 1 do if ev_undelivered g (n_of_int i) then fail "FULL-wait-undelivered-has-token" id done
+    end;
     for t = 1 to nt - 1 do
       let (((_, pc), _), x) = ev_local (ls (nat_of_int t)) in
       let x = int_of_n x in
@@ -83,36 +96,43 @@ let () =
         if x > int_of_n nt_ then fail "myidx" id;
         if stc = 0 && not (x <= int_of_n cv || inphase i) then fail "Aux" id
       | NCasIP i -> let (((nt_, _), _), _) = ev_ghost g i in if x > int_of_n nt_ then fail "myidx" id
-      | LWait _ | LStoreIdle | LEmpty | LDrainPtr _ | LDrain _ -> fail "role" id
+      | LWait _ | LStoreIdle | LEmpty | LStoreIdle2 | LDrainPtr _ | LDrain _ -> fail "role" id
       | _ -> ()
     done;
     (match lpc with NAct _ | NActCas _ | NCasIP _ | NTrig _ | NCasPN _ -> fail "role" id | _ -> ()) in
+  let lost_terminal = ref 0 and first_lt = ref None in
   let deadlocks = ref 0 and lost = ref 0 and bad = ref 0 and lost_not_bad = ref 0 and bad_exit = ref 0 in
   let first_lost = ref None and first_bad = ref None and first_lnb = ref None in
   let maxstates = try int_of_string (Sys.getenv "EXPLORE_MAX") with Not_found -> 3000000 in
   while not (Queue.is_empty q) && !nstates < maxstates do
-    let (id, c) = Queue.pop q in
+    let (id, (c, frozen)) = Queue.pop q in
     let moved = ref false in
-    check_inv id c;
+    check_inv id (c, frozen);
     let isbad = ev_bad_window c in
     for t = 0 to nt - 1 do
+      if t <> frozen then
       match ev_step1 (nat_of_int t) c with
       | None -> ()
-      | Some (c', _) -> moved := true; add c' id t;
-        (* the bad window is a trap: no step leaves it *)
+      | Some (c', _) -> moved := true; add (c', frozen) id t;
         if isbad && not (ev_bad_window c') then incr bad_exit
     done;
-    let unfinished = List.exists (fun t -> let (((p, pc), _), _) = ev_local ((snd c) (nat_of_int t)) in p <> [] || pc <> PIdle) (List.init nt (fun t -> t)) in
+    (* a notifier dies between its Idle->Pending CAS and its trigger post (at most one crash per run) *)
+    if crash && frozen < 0 then
+      for t = 1 to nt - 1 do
+        match ev_local ((snd c) (nat_of_int t)) with (((_, NTrig _), _), _) -> add (c, t) id (100 + t) | _ -> ()
+      done;
+    let unfinished = List.exists (fun t -> t <> frozen && (let (((p, pc), _), _) = ev_local ((snd c) (nat_of_int t)) in p <> [] || pc <> PIdle)) (List.init nt (fun t -> t)) in
     if not !moved && unfinished then incr deadlocks;
     if ev_lost_wakeup c then begin incr lost; if !first_lost = None then first_lost := Some id;
+      if not !moved then begin incr lost_terminal; if !first_lt = None then first_lt := Some id end;
       if not isbad then begin incr lost_not_bad; if !first_lnb = None then first_lnb := Some id end end;
     if isbad then begin incr bad; if !first_bad = None then first_bad := Some id end
   done;
-  Printf.printf "STATES %d%s\nDEADLOCKS %d\nLOST %d\nBADWINDOW %d\nLOST_NOT_BAD %d\nBAD_EXIT %d\n" !nstates
-    (if Queue.is_empty q then "" else " (truncated)") !deadlocks !lost !bad !lost_not_bad !bad_exit;
+  Printf.printf "STATES %d%s\nDEADLOCKS %d\nLOST %d\nLOST_TERMINAL %d\nBADWINDOW %d\nLOST_NOT_BAD %d\nBAD_EXIT %d\n" !nstates
+    (if Queue.is_empty q then "" else " (truncated)") !deadlocks !lost !lost_terminal !bad !lost_not_bad !bad_exit;
   Hashtbl.iter (fun name n -> Printf.printf "INVFAIL %s %d first=%s\n" name n
     (String.concat "," (List.map string_of_int (sched_of (Hashtbl.find inv_first name))))) inv_fail;
   let show name = function None -> () | Some id ->
     let s = sched_of id in
     Printf.printf "WITNESS %s len=%d schedule=%s\n" name (List.length s) (String.concat "," (List.map string_of_int s)) in
-  show "lost-wakeup" !first_lost; show "bad-window" !first_bad; show "lost-not-bad" !first_lnb
+  show "lost-wakeup" !first_lost; show "lost-terminal" !first_lt; show "bad-window" !first_bad; show "lost-not-bad" !first_lnb
